@@ -181,6 +181,69 @@ func mwScenario(L int, lateB bool, c int) *explore.Scenario {
 	}}
 }
 
+// long registration sequences (the statement's "up to length 20"): three fixed interleavings of router-level and
+// handler-level registrations of length 18-21 over two handlers, one schedule each - far beyond the exhaustive bound,
+// as a guard against anything that depends on how many middlewares there are.
+func longScenario() *explore.Scenario {
+	return &explore.Scenario{Name: "middleware/long", C: -1, DataOnly: true, Body: func() {
+		r, err := message.NewRouter(message.RouterConfig{}, nil)
+		if err != nil {
+			vs.Fail("setup", "%v", err)
+			return
+		}
+		traces := map[string]*string{}
+		mk := func(id int) message.HandlerMiddleware {
+			return func(next message.HandlerFunc) message.HandlerFunc {
+				return func(m *message.Message) ([]*message.Message, error) {
+					t := traces[m.UUID]
+					*t += fmt.Sprintf("%d(", id)
+					out, err := next(m)
+					*t += fmt.Sprintf(")%d", id)
+					return out, err
+				}
+			}
+		}
+		hs := map[string]*message.Handler{}
+		for _, h := range []string{"A", "B"} {
+			h := h
+			sub := hx.NewScriptSub(h, map[string][]*message.Message{"in" + h: {hx.Msg("msg" + h)}})
+			tr := ""
+			traces["msg"+h] = &tr
+			hs[h] = r.AddHandler("h"+h, "in"+h, sub, "out", hx.NewScriptPub("p"+h), func(m *message.Message) ([]*message.Message, error) {
+				*traces[m.UUID] += "H" + h
+				return nil, nil
+			})
+		}
+		pattern := []string{"RABRBA", "ABR", "RRABBAB"}[vs.Choose(3, 0, "registration pattern")]
+		length := 18 + vs.Choose(4, 0, "length")
+		var regs []mwReg
+		prog := ""
+		for i := 0; i < length; i++ {
+			lv := string(pattern[i%len(pattern)])
+			if lv == "R" {
+				r.AddMiddleware(mk(i))
+			} else {
+				hs[lv].AddMiddleware(mk(i))
+			}
+			regs = append(regs, mwReg{i, lv})
+			prog += "M" + lv + " "
+		}
+		go func() {
+			if err := r.Run(context.Background()); err != nil {
+				vs.Fail("run-result", "%v", err)
+			}
+		}()
+		<-r.Running()
+		vs.Quiesce()
+		for h := range hs {
+			if got, want := *traces["msg"+h], expected(regs, h); got != want {
+				vs.Fail("nesting", "program [%s]: handler %s ran %q, expected %q", strings.TrimSpace(prog), h, got, want)
+			}
+		}
+		vs.Note("%s", prog)
+	}}
+}
+
 var namings = []map[string]string{
 	{"A": "hA", "B": "hB"},
 	{"A": "", "B": "hB"},
@@ -319,6 +382,7 @@ func init() {
 	}
 	add(reg.Thorough, 50, func(t reg.Tier) *explore.Scenario { return mwScenario(5, true, -1) })
 	add(reg.Quick, 20, func(t reg.Tier) *explore.Scenario { return mwScenario(2, false, 0) })
+	add(reg.Quick, 2, func(t reg.Tier) *explore.Scenario { return longScenario() })
 	add(reg.Thorough, 60, func(t reg.Tier) *explore.Scenario { return mwScenario(3, true, 0) })
 	for np := 0; np <= 5; np++ {
 		for ns := 0; ns <= 5; ns++ {
